@@ -16,6 +16,7 @@ ASSUMPTIONS = [
     "`right--` in StringUtil::Trim never wraps below 0 (proved unreachable in the index-level model: trim_ix_never_underflows is implied by tokenizer_refines_split; the model itself saturates)",
     "'the original object is never modified' is observed by re-reading every earlier object (entries, ToHeader, Empty) after every operation; in the model objects are values, so the statement is the store-append lemma original_unchanged",
     "memory safety on arbitrary bytes is evidenced by the ASan/UBSan build (all strings are handed over as exact-size heap blocks without a terminating NUL), not by a theorem",
+    "all operations of a case, and all cases of a file, run on one thread of one driver process in the given order and the driver keeps no per-op state of its own (re-reading objects calls no validator); the model is a stateless function, so validators that carry state across calls (memo/caches) are exposed by the history cases (value role then key role of the same bytes); only the regex validators are compiled in this configuration (OPENTELEMETRY_HAVE_WORKING_REGEX), the NonRegEx variants are not exercised",
     "FromHeader does not reject a header that repeats a key (the property text does not ask for it); duplicate-freedom is proved as preserved by Set/Delete and as 'Set never produces a second member with the key it sets'",
 ]
 TRUSTED = ["model coq/C14/Impl.v (index/capacity level) is hand-written; tied to the C++ by this correspondence run and proved equal to coq/C14/Model.v"]
